@@ -158,3 +158,104 @@ Example C13_ex_resumption :
     (mkFlight None (mkHello 771 0 0 [1; 2; 3] 47 0 0 0 false None []) [] None None true)
   = Abort a_handshake_failure.
 Proof. vm_compute. repeat split; reflexivity. Qed.
+
+(* ======================================================================================================
+   Composition with the marshal model (Model/WriteToUConn.v, Proofs/ComposeP.v, Proofs/ComposeW.v; reading guide at
+   the end of Props/C12.v): the premise [versions_synced] is a theorem for the view UConn.ApplyConfig builds and the
+   bytes MarshalClientHelloNoECH emits from the same header fields and extension list - and the check that states it
+   found a spec for which the code as it was did NOT satisfy C13.
+
+   STATE: apply_config models ApplyConfig WITH fixes/C13-no-supported-versions-extension.diff; the function before
+   that fix is apply_config_before and C13_version_without_extension_before_fix_refuted keeps its witness: a spec
+   with TLSVersMax 1.3 and no SupportedVersionsExtension (or a parrot whose extension the caller removed) sends
+   legacy_version 1.2 without supported_versions and completed a handshake at TLS 1.3 - reproduced on the real code
+   (notes/Compose.md).
+   ====================================================================================================== *)
+From UV Require Model.Ext Model.Marshal Model.ChMarshal Model.WriteToUConn Proofs.ComposeP Proofs.ComposeW.
+
+(* supported_versions sent: Hello.SupportedVersions is the list on the wire (versions_synced for every spec minimum).
+   Not sent (fixed ApplyConfig): Hello.SupportedVersions = the versions the configuration accepts up to legacy_version *)
+Theorem C13_versions_view_is_wire : forall env bbs padto s es raw s' load ecdhe mlkem sess,
+  ChMarshal.wf_specb (WriteToUConn.us_hdr s) es = true ->
+  forallb WriteToUConn.typed_ext es = true ->
+  ChMarshal.marshal_hello bbs padto (WriteToUConn.us_hdr s) es = Ok raw ->
+  WriteToUConn.apply_config env (ChMarshal.marshal_hello bbs padto (WriteToUConn.us_hdr s) es) s es = Ok s' ->
+  let v := WriteToUConn.view_of (WriteToUConn.finish load es s') es ecdhe mlkem sess in
+  exists w, WriteToUConn.wire_of raw = Some w /\ w_legacy w = Marshal.h_vers (WriteToUConn.us_hdr s) /\
+    if existsb WriteToUConn.is_versions_ext es
+    then w_has_sv w = true /\ forall specmin, versions_synced v specmin w = true
+    else w_has_sv w = false
+         /\ cv_sv v = filter (fun x => x <=? Marshal.h_vers (WriteToUConn.us_hdr s)) (client_versions v)
+         /\ cv_sv v <> [].
+Proof. exact ComposeP.compose_versions. Qed.
+Print Assumptions C13_versions_view_is_wire.
+
+(* THE PROPERTY without the premise: for every header and extension list inside the C02 precondition, every state of
+   the UConn before ApplyConfig, every server flight: a completed handshake is at a version the marshalled hello
+   advertised. specmin = the spec's minimum; Config.MinVersion (written by SetTLSVers from it) must not be below it. *)
+Theorem C13_version_advertised_from_spec : forall env bbs padto s es raw s' load ecdhe mlkem sess,
+  ChMarshal.wf_specb (WriteToUConn.us_hdr s) es = true ->
+  forallb WriteToUConn.typed_ext es = true ->
+  ChMarshal.marshal_hello bbs padto (WriteToUConn.us_hdr s) es = Ok raw ->
+  WriteToUConn.apply_config env (ChMarshal.marshal_hello bbs padto (WriteToUConn.us_hdr s) es) s es = Ok s' ->
+  forall specmin fl st,
+  specmin <= (if WriteToUConn.us_cfg_min s =? 0 then 771 else WriteToUConn.us_cfg_min s) ->
+  client_run (WriteToUConn.view_of (WriteToUConn.finish load es s') es ecdhe mlkem sess) fl = Complete st ->
+  exists w, WriteToUConn.wire_of raw = Some w /\ In (cs_vers st) (advertised specmin w).
+Proof. exact ComposeP.compose_version_advertised. Qed.
+Print Assumptions C13_version_advertised_from_spec.
+
+(* ... and starting from a ClientHelloSpec: mn = the minimum SetTLSVers derives from it *)
+Theorem C13_version_advertised_from_preset : forall sp c fr h es mn mx env bbs padto raw s' load ecdhe mlkem sess fl st,
+  Preset.apply_preset sp c fr = Ok (h, es) -> Preset.set_tls_vers sp = Ok (mn, mx) ->
+  ChMarshal.wf_specb h es = true -> forallb WriteToUConn.typed_ext es = true ->
+  ChMarshal.marshal_hello bbs padto h es = Ok raw ->
+  WriteToUConn.apply_config env (ChMarshal.marshal_hello bbs padto h es) (ComposeW.preset_state h mn mx) es = Ok s' ->
+  client_run (WriteToUConn.view_of (WriteToUConn.finish load es s') es ecdhe mlkem sess) fl = Complete st ->
+  exists w, WriteToUConn.wire_of raw = Some w /\ In (cs_vers st) (advertised mn w).
+Proof. exact ComposeW.version_advertised_preset. Qed.
+Print Assumptions C13_version_advertised_from_preset.
+
+(* the downgrade sentinel, without the premise: the marshalled hello lists TLS 1.3 *)
+Theorem C13_canary_from_spec : forall env bbs padto s es raw s' load ecdhe mlkem sess,
+  ChMarshal.wf_specb (WriteToUConn.us_hdr s) es = true ->
+  forallb WriteToUConn.typed_ext es = true ->
+  ChMarshal.marshal_hello bbs padto (WriteToUConn.us_hdr s) es = Ok raw ->
+  WriteToUConn.apply_config env (ChMarshal.marshal_hello bbs padto (WriteToUConn.us_hdr s) es) s es = Ok s' ->
+  forall fl st,
+  (exists w, WriteToUConn.wire_of raw = Some w /\ offers13 w = true) ->
+  h_tail (first_hello fl) = 1 \/ h_tail (first_hello fl) = 2 ->
+  client_run (WriteToUConn.view_of (WriteToUConn.finish load es s') es ecdhe mlkem sess) fl = Complete st ->
+  cs_vers st = V13.
+Proof. exact ComposeP.compose_canary. Qed.
+Print Assumptions C13_canary_from_spec.
+
+(* the same statement as C13_version_advertised_from_spec about ApplyConfig BEFORE the repair is false:
+   header legacy_version 1.2, extensions supported_groups / key_share / signature_algorithms and no supported_versions,
+   Config 1.2..1.3 and Hello.SupportedVersions [1.3; 1.2] as SetTLSVers leaves them for TLSVersMin 1.2 / TLSVersMax 1.3;
+   a ServerHello selecting TLS 1.3 is accepted although the wire advertises [1.2] only *)
+Theorem C13_version_without_extension_before_fix_refuted : ~ ComposeW.version_statement_before.
+Proof. exact ComposeW.version_before_refuted. Qed.
+Print Assumptions C13_version_without_extension_before_fix_refuted.
+
+(* with the repair that handshake is refused (protocol_version): Hello.SupportedVersions is [1.2] *)
+Example C13_ex_without_extension_after_fix :
+  match ChMarshal.marshal_hello (fun _ => 512) 0%Z ComposeW.w13_hdr ComposeW.w13_exts with
+  | Ok raw =>
+    match WriteToUConn.apply_config (WriteToUConn.mkEnvW false) (Ok raw) ComposeW.w13_state ComposeW.w13_exts with
+    | Ok s' => WriteToUConn.us_versions s' = [771]
+               /\ client_run (WriteToUConn.view_of s' ComposeW.w13_exts 29 false 0) ComposeW.w13_flight = Abort a_protocol_version
+    | _ => False
+    end
+  | _ => False
+  end.
+Proof. exact ComposeW.version_after_fix. Qed.
+
+(* non-vacuity of the premises on a shipped parrot: Chrome_133 through ApplyPreset, marshal, ApplyConfig and the strict
+   parser; versions_synced and offers13 hold by computation, the client completes at TLS 1.3 (same term as
+   C12_ex_chrome133_composed) *)
+Example C13_ex_chrome133_composed : ComposeW.ex_chrome133 = true.
+Proof. vm_compute. reflexivity. Qed.
+
+(* imported last, for the driver's closure scan only (see the end of Props/C12.v) *)
+From UV Require Import Model.WriteToUConn Proofs.ComposeP Proofs.ComposeW.
